@@ -47,10 +47,10 @@ def rib_attr(comp, ev, rec):
         return {"C12"}
     if comp.startswith("flush:"):
         base = comp[6:]
-        return {"C08"} | {"rib": {"C01"}, "refs": {"C03"}, "mirror": {"C16"}, "pend": {"C02"}}.get(base, set())
+        return {"C08"} | {"rib": {"C01"}, "refs": {"C03"}, "mirror": {"C16"}, "pend": {"C02"}, "heldLost": {"C02", "C06"}}.get(base, set())
     table = {
         "rib": {"C01"}, "fold": {"C01"}, "res": {"C01", "C06"}, "failedTrace": {"C01", "C12"},
-        "pend": {"C02"}, "pendShape": {"C02"}, "heldResolvable": {"C02", "C06"}, "heldNoFwd": {"C02"},
+        "pend": {"C02"}, "heldLost": {"C02", "C06"}, "pendShape": {"C02"}, "heldResolvable": {"C02", "C06"}, "heldNoFwd": {"C02"},
         "dangling": {"C02"}, "try": {"C02"}, "incomplete": {"C02", "C06"}, "begin": {"C02"},
         "refs": {"C03"}, "counters": {"C03"},
         "mirror": {"C16"}, "mirrorVsRib": {"C16"}, "rsnapMissing": {"C16"}, "rsnapTag": {"C16"},
@@ -732,7 +732,12 @@ _srv("C04",
 _srv("C05",
      mc={"quick": [dict(MaxMsgs=5, MaxOpen=3, HiVals=(0, 1, 2), LoVals=(1, 2), StampModes=("last",))],
          "thorough": [dict(MaxMsgs=6, MaxOpen=3, HiVals=(0, 1, 2), LoVals=(1, 2, 3), StampModes=("last",))]},
-     sims=_S_SIMS, exh=_S_EXH, random_cfg=_rnd(["elec", "fsm"], 60, 600))
+     sims=_S_SIMS,
+     # ties and re-announcements: every sequence of parameter / election messages of two (three) sessions over a single id
+     exh={"quick": _S_EXH["quick"] + [dict(MaxMsgs=5, MaxOpen=2, HiVals=(0,), LoVals=(1,), OpShapes="none", StampModes=("last",), WithClose=False)],
+          "thorough": _S_EXH["thorough"] + [dict(MaxMsgs=6, MaxOpen=2, HiVals=(0,), LoVals=(1, 2), OpShapes="none", StampModes=("last",), WithClose=False),
+                                            dict(MaxMsgs=7, MaxOpen=3, HiVals=(0,), LoVals=(1,), OpShapes="none", StampModes=("last",), WithClose=False)]},
+     random_cfg=_rnd(["elec", "fsm"], 60, 600))
 _srv("C06",
      mc={"quick": [dict(MaxMsgs=6, MaxOpen=2, HiVals=(0,), LoVals=(1, 2), OpShapes="chain", StampModes=("last",), AckModes=("RIB", "RIB_FIB"))],
          "thorough": [dict(MaxMsgs=8, MaxOpen=2, HiVals=(0,), LoVals=(1, 2), OpShapes="chain", StampModes=("last",), AckModes=("RIB", "RIB_FIB"), FwdModes=(True, False))]},
@@ -1213,6 +1218,152 @@ for _p in ("C13", "C14"):
         mc={"quick": [dict(MaxSteps=7, MaxOps=3)], "thorough": [dict(MaxSteps=9, MaxOps=4)]},
         sims=_CL_SIMS, exh=_CL_EXH,
         random_cfg={"quick": {"n": 25, "len": 40, "storm": 6}, "thorough": {"n": 500, "len": 60, "storm": 60}})
+
+
+# ---------------------------------------------------------------------------
+# client goroutine family (C14, C13): GribiClientProc / _MC / _Live / Trace - every schedule of the application,
+# sender and receiver goroutines; TLC-generated schedules are replayed through the scheduler gates of the client
+
+PROC_INVARIANTS = "NoPanic CloseLeavesNoGoroutine AwaitSound AwaitReportsErrors Accounting ResetIsFresh"
+PROC_LIVE = "AppTerminates QReturns CloseReturns"
+
+
+def proc_cfg(Cap=1, NQ=2, MaxAwait=2, Closer="close", MaxFaults=1, HoldModes=(False,), EmitOn=False, live=False, trace=False):
+    lines = ["SPECIFICATION " + ("LiveSpec" if live else "PTSpec" if trace else "MCSpec"), "CONSTANTS", f"  Cap = {Cap}", f"  NQ = {NQ}",
+             f"  MaxAwait = {MaxAwait}", f"  Closer = {q(Closer)}", "  SelectOnExit = TRUE"]
+    if trace:
+        lines += ['  TraceFile = "trace.ndjson"', "POSTCONDITION TraceAccepted"]
+    else:
+        lines.append(f"  MaxFaults = {MaxFaults}")
+        if live:
+            lines.append("PROPERTIES " + PROC_LIVE)
+        else:
+            lines += [f"  EmitOn = {str(EmitOn).upper()}", f"  HoldModes = {tlaset(HoldModes)}"]
+            lines += ["INVARIANTS Emit"] if EmitOn else ["VIEW View", "INVARIANTS " + PROC_INVARIANTS]
+    lines.append("CHECK_DEADLOCK FALSE")
+    return "\n".join(lines) + "\n"
+
+
+def proc_attr(comp):
+    if comp in ("procStall", "procGoroutineLeft", "procPc", "procDone", "procShut", "procHalfClosed", "procPanic", "procNotEnabled"):
+        return {"C14"}
+    if comp in ("procPend", "procSent", "procModLen", "procConvergedWrongly"):
+        return {"C13"}
+    if comp in ("procAwait", "procErrs"):
+        return {"C13", "C14"}
+    return set()
+
+
+class ProcFamily:
+    """Goroutine-grain part of C14 / C13."""
+    FAMILY = "clientproc"
+
+    def __init__(self, prop):
+        self.prop = prop
+
+    def run(self, ctx):
+        res = Result()
+        quick = ctx.tier == "quick"
+        ctx.build_vh()
+        mcs, states, trans = [], 0, 0
+        # 1. the design: every interleaving of a small instance (safety), and termination of every call under fairness
+        small = [dict(Cap=1, NQ=2, Closer=c) for c in ("close", "reset", "none")] if quick else \
+                [dict(Cap=c, NQ=n, Closer=cl) for (c, n) in ((1, 3), (2, 3)) for cl in ("close", "reset", "none")]
+        for kw in small:
+            run = require_ok(ctx.tlc("GribiClientProc_MC", None, name="mc-proc", workers=vlib.NCPU, cfg_text=proc_cfg(**kw), timeout=3000, heap="16g"),
+                             "model checking GribiClientProc_MC")
+            states += run.distinct
+            trans += run.generated
+            mcs.append({"module": "GribiClientProc_MC", "constants": kw, "distinct_states": run.distinct, "generated": run.generated, "secs": round(run.secs, 1)})
+        for kw in ([dict(Cap=1, NQ=2, Closer="close"), dict(Cap=1, NQ=2, Closer="reset")] if quick else
+                   [dict(Cap=1, NQ=3, Closer="close"), dict(Cap=2, NQ=3, Closer="reset"), dict(Cap=1, NQ=2, MaxAwait=3, Closer="close")]):
+            run = require_ok(ctx.tlc("GribiClientProc_Live", None, name="live-proc", workers=vlib.NCPU, cfg_text=proc_cfg(live=True, **kw), timeout=3000, heap="16g"),
+                             "liveness of GribiClientProc")
+            mcs.append({"module": "GribiClientProc_Live", "constants": kw, "properties": PROC_LIVE, "distinct_states": run.distinct, "secs": round(run.secs, 1)})
+        # 2./3./4. schedules of the instance with the real channel capacity -> real client -> trace validation
+        nwalks = 250 if quick else 6000
+        tot = collections.Counter()
+        nseg = events = nontriv = 0
+        samples = []
+        for ci, closer in enumerate(("close", "reset", "none")):
+            kw = dict(Cap=5, NQ=7, MaxAwait=2, Closer=closer)
+            sim = require_ok(ctx.tlc("GribiClientProc_MC", None, name="emit-proc", simulate=nwalks, depth=500, seed=ctx.seed * 100 + ci,
+                                     cfg_text=proc_cfg(EmitOn=True, HoldModes=(True, False), **kw), timeout=1800), "schedule emission")
+            walks = list(dict.fromkeys(sim.emitted()))
+            wf = os.path.join(ctx.work, f"pwalks-{closer}.txt")
+            with open(wf, "w") as f:
+                for w in walks:
+                    f.write("@@" + w + "\n")
+            trace = os.path.join(ctx.work, f"ptrace-{closer}.ndjson")
+            p = ctx.run_vh(["proc-run", "-in", wf, "-out", trace])
+            if p.returncode != 0:
+                raise Infra("vh proc-run failed: " + p.stdout[-2000:] + p.stderr[-4000:])
+            info = json.loads(p.stdout.strip().splitlines()[-1])
+            for k, v in info.items():
+                tot[k] += v
+            run = ctx.tlc("GribiClientProcTrace", None, name="validate-proc", workers=1, cfg_text=proc_cfg(trace=True, **kw),
+                          extra_files={trace: "trace.ndjson"}, timeout=3000, heap="12g")
+            matched, total, mism = parse_trace_report(run)
+            if matched != total:
+                raise Infra(f"trace validation stopped at line {matched + 1} of {total}\n" + run.tail())
+            events += total
+            segs = Segments(trace, '{"closer"')
+            nseg += len(segs.starts)
+            # non-trivial: a fault step occurred in the walk and the application still ran to the end of the schedule
+            with open(trace) as fh:
+                fault = False
+                for line in fh:
+                    if line.startswith('{"closer"'):
+                        fault = False
+                    elif '"c":"fail"' in line or '"l":"err"' in line or ('"l":"eof"' in line and '"p":"env"' in line):
+                        fault = True
+                    elif line.startswith('{"clean"') and fault and '"stalled":false' in line:
+                        nontriv += 1
+            if not samples and walks:
+                samples.append(json.loads(walks[0])["steps"][:20])
+            byseg = collections.OrderedDict()
+            other = collections.Counter()
+            for (ln, ev, comps) in mism:
+                mine = [c for c in comps if self.prop in proc_attr(c)]
+                for c in comps:
+                    if self.prop not in proc_attr(c):
+                        other["/".join(sorted(proc_attr(c))) + ":" + c] += 1
+                if mine:
+                    byseg.setdefault(segs.segment_of(ln), []).append((ln, ev, mine))
+            for k, n in other.items():
+                res.notes.append(f"{n} deviation(s) attributed to {k} (not to {self.prop})")
+            for s0, items in list(byseg.items())[:3]:
+                ln, ev, mine = items[0]
+                evs = segs.lines(s0, ln)
+                rp = os.path.join(vlib.ROOT, "replays", f"{self.prop}-proc-{vlib.sha(json.dumps(evs, sort_keys=True))}.json")
+                json.dump({"property": self.prop, "family": self.FAMILY, "seed": ctx.seed, "tier": ctx.tier, "constants": kw,
+                           "first_deviation": {"trace_line": ln, "event": ev, "components": mine},
+                           "schedule": [{k: e.get(k) for k in ("p", "l", "c", "ok", "at")} for e in evs if e.get("ev") == "pstep"],
+                           "failing_event": evs[-1]}, open(rp, "w"), indent=1)
+                what = f"goroutine schedule (closer={closer}) step {evs[-1].get('i')} {evs[-1].get('p')}:{evs[-1].get('l')}: specification and implementation differ in {mine}"
+                if "procStall" in mine:
+                    what += f" - the specification enables this step but the goroutine was found at {evs[-1].get('at')!r} / did not reach its next gate"
+                res.violations.append({"replay": rp, "what": what})
+        res.coverage = {
+            "states": states, "transitions": trans, "exhaustive": False,
+            "traces_validated_against_impl": nseg, "evaluations": events, "distinct_nontrivial": nontriv,
+            "rule": ("one case = one schedule of the application / sender / receiver goroutines and stream events generated by TLC from GribiClientProc_MC "
+                     "(Cap = 5 as in the code, 7 Q calls, AwaitConverged, then Close / Reset / nothing) and replayed step by step through the scheduler gates "
+                     "of the real client; non-trivial = the schedule contains a stream fault (failed Send, receive error, end of stream) and every "
+                     "step the specification enables was taken by the implementation up to the end of the schedule"),
+            "samples": samples or [["no sample"]], "driver": dict(tot), "model_checking": mcs,
+        }
+        res.assumptions = ["the stream is a stub: Send fails when the schedule says so, Recv returns what the schedule's environment steps delivered",
+                           "which ready case a Go select takes cannot be forced: the outcome is logged and a schedule that assumed the other case is cut there",
+                           "liveness (every call returns) is proved on the specification under weak fairness for the small instances listed; on the implementation it is observed per step (a step the specification enables must be taken within 3 s)"]
+        return res
+
+    def replay(self, ctx, path):
+        raise Infra("goroutine schedules are replayed by re-running the check with the recorded seed")
+
+
+for _p in ("C13", "C14"):
+    REGISTRY[_p] = CompositeFamily(_p, [REGISTRY[_p], ProcFamily(_p)])
 
 
 # ---------------------------------------------------------------------------
